@@ -208,6 +208,17 @@ func graphSweep(c *Ctx, maxN int, thorough bool, emit func(g *gspec)) {
 					out(g)
 				}
 			}
+			// E''. two remote documents that differ by their query only
+			if n <= 2 {
+				for _, pp := range [][]int{{12, 4, 0}, {4, 12, 0}, {12, 12, 4}, {0, 12, 4}} {
+					for _, entry := range []int{entDefinition, entAll} {
+						g := base.clone()
+						copy(g.Place, pp[:n])
+						g.Entry = entry
+						out(g)
+					}
+				}
+			}
 			// F. target shapes (nested pointers, list elements, whole documents)
 			for _, shape := range []int{1, 2, 3, 5, 6} {
 				for i := 0; i < n; i++ {
